@@ -837,7 +837,14 @@ func (e *Env) evalCall(n *ast.CallExpr) (Val, bool) {
 			}
 			pt, ok := under(t).(*types.Pointer)
 			if !ok {
-				return e.fail("as: target must be a pointer type")
+				// a boxed scalar: the value that was put into the interface on this path
+				if o, found := x.unboxed[a.Fs[0].T.S+"|"+a.Fs[1].T.S]; found && o.K == KScalar && types.Identical(o.Typ, t) {
+					return o, true
+				}
+				if scalarSort(t) == sInt {
+					return scalar(a.Fs[1].T, t), true
+				}
+				return e.fail("as: the boxed value is not known on this path (target %s)", t)
 			}
 			return Val{K: KPtr, Typ: t, P: &Ptr{Kind: PObj, Base: a.Fs[1].T, Elem: pt.Elem()}}, true
 		case "str":
